@@ -454,6 +454,18 @@ func messageLattices(c *vf.Ctx, pool [][]string) {
 			msgs = append(msgs, m)
 		}
 	}
+	// (G) nested owner names l0, l1.l0, l2.l1.l0, ...: a compressing encoder writes each as one label plus a
+	// pointer to the previous name, so reading the last one follows a chain of D strictly backward pointers
+	for _, D := range chainDepths(c) {
+		m := &tmsg{id: uint16(0x5000 + D), flags: 0x8400}
+		var name []string
+		for k := 0; k <= D; k++ {
+			name = append([]string{string(rune('a'+k%26)) + fmt.Sprint(k%10)}, name...)
+			s := 1 + k%3
+			m.sec[s] = append(m.sec[s], std(name, s, k))
+		}
+		msgs = append(msgs, m)
+	}
 	c.Set("messages", len(msgs))
 	vf.Par(len(msgs), func(i int) {
 		if c.DeadlineExceeded() {
@@ -487,4 +499,15 @@ func messageLattices(c *vf.Ctx, pool [][]string) {
 			return fmt.Sprintf("NewMessage+AddQuestion(%s,28,1)+AddAnswer: Encode = %s, %v; reference %s", qn(n), vf.HexS(got), err, vf.HexS(want))
 		})
 	})
+}
+
+// chainDepths: every depth 1..16, then both sides of 2^k up to the deepest chain a 255-byte name allows
+// with 2-character labels (84 labels = 253 octets).
+func chainDepths(c *vf.Ctx) []int {
+	var d []int
+	for i := 1; i <= 16; i++ {
+		d = append(d, i)
+	}
+	d = append(d, 17, 31, 32, 33, 63, 64, 65, 82, 83)
+	return d
 }
